@@ -764,6 +764,32 @@ def get_description(tokens: list[str]) -> str:
     return tokens[0]
 
 
+def _split_interpreter_options(tokens: list[str]) -> tuple[list[str], list[str]]:
+    """Split into the interpreter's own options and the program (script and its arguments).
+
+    Options end at the first word that is not an option; -c, -m and - end them too
+    (with their value). Everything after belongs to the program, whatever it looks like.
+    """
+    opts: list[str] = []
+    i = 1
+    while i < len(tokens):
+        token = tokens[i]
+        if token == "-":
+            return opts + ["-"], tokens[i + 1 :]
+        if token in ("-c", "-m"):
+            return opts + tokens[i : i + 2], tokens[i + 2 :]
+        if token in FLAGS_WITH_ARG:
+            opts.extend(tokens[i : i + 2])
+            i += 2
+            continue
+        if token.startswith("-"):
+            opts.append(token)
+            i += 1
+            continue
+        break
+    return opts, tokens[i:]
+
+
 def classify(ctx: HandlerContext) -> Classification:
     """Classify Python command for approval.
 
@@ -778,7 +804,7 @@ def classify(ctx: HandlerContext) -> Classification:
     - Interactive mode
     """
     tokens = ctx.tokens
-    cwd = Path.cwd()
+    cwd = ctx.cwd or Path.cwd()
 
     desc = get_description(tokens)
 
@@ -786,20 +812,23 @@ def classify(ctx: HandlerContext) -> Classification:
         # Just "python" - starts interactive mode
         return Classification("ask", description=f"{tokens[0]} interactive")
 
+    # Only the interpreter's own options count: "python x.py --version" runs x.py
+    opts, _program = _split_interpreter_options(tokens)
+
     # Check for safe flags first
-    for token in tokens[1:]:
+    for token in opts:
         if token in SAFE_FLAGS:
             return Classification("allow", description=desc)
 
     # Check for -c (inline code) - too hard to analyze reliably
-    if "-c" in tokens:
+    if "-c" in opts:
         return Classification("ask", description=desc)
 
     # Check for -m (module) - could run arbitrary code
-    if "-m" in tokens:
-        idx = tokens.index("-m")
-        if idx + 1 < len(tokens):
-            module = tokens[idx + 1]
+    if "-m" in opts:
+        idx = opts.index("-m")
+        if idx + 1 < len(opts):
+            module = opts[idx + 1]
             # Only calendar is truly inert (just prints output, no I/O or code exec)
             # - timeit: executes its argument as code
             # - json.tool: reads files
@@ -808,8 +837,8 @@ def classify(ctx: HandlerContext) -> Classification:
                 return Classification("allow", description=desc)
         return Classification("ask", description=desc)
 
-    # Check for -i (interactive after script)
-    if "-i" in tokens:
+    # Check for -i (interactive after script) and - (program read from stdin)
+    if "-i" in opts or "-" in opts:
         return Classification("ask", description=desc)
 
     # Find and analyze script
